@@ -29,7 +29,7 @@ ASSUMPTIONS = ["a target within 1e-6 of the valid-region border or of a cell edg
                "RK steps whose stage positions leave the valid region are judged by the safety invariants only"]
 TIERS = {"quick": dict(runs=1500, budget_s=55, shrink=150),
          "thorough": dict(runs=150000, budget_s=900, shrink=250)}
-REQUIRED_PROBES = ["land_cancel", "out_of_grid_kill", "inactive", "diffusion", "channel_or_island", "rk_stage_outside", "warm_start"]
+REQUIRED_PROBES = ["land_cancel", "out_of_grid_kill", "inactive", "diffusion", "channel_or_island", "rk_stage_outside", "warm_start", "dead_rows_at_the_move"]
 
 PROFILE = gen.profile(
     nsteps=(3, 40), p_reversed=0.2, p_land=0.9, p_islands=0.8, p_channel=0.4, p_subgrid=0.4, p_bathy_var=0.3,
@@ -52,6 +52,17 @@ def generate(seed: int, tier: str, idx: int) -> dict:
         sc.get("spell", {}).pop("period", None)
         gen.make_restartable(sc)
         sc["plan"] = {"warm": True}
+    elif s.chance(0.35):
+        # a module other than the IBM marks particles dead in the middle of a step (after the forcing, before the
+        # move), as a user's forcing or output plug-in may: the dead rows are still in the state when the tracker runs
+        per, n = sc["output"]["period"], sc["time"]["nsteps"]
+        steps = [k for k in range(1, n) if k % per]
+        tags = [r["tag"] for r in sc["release"]["rows"]]
+        if steps and tags:
+            ek = {}
+            for k in s.sample(steps, min(len(steps), s.randint(1, 3))):
+                ek[str(k)] = s.sample(tags, min(len(tags), s.randint(1, 3)))
+            sc["plan"] = {"early_kills": ek}
     return sc
 
 
@@ -62,9 +73,21 @@ def execute(sc) -> Result:
     diffusion = bool(sc["tracker"].get("diffusion"))
     store: dict = {}
     monitor, ref = c01.make_monitor(sc, store)
+    early = plan.get("early_kills") or {}
+
+    def killer(label, snap, rec):
+        if label == "forcing.post" and str(snap["step"]) in early:
+            st = rec.modules["state"]
+            hit = np.isin(st["tag"], early[str(snap["step"])]) & st["alive"]
+            if hit.any():
+                st["alive"] = st["alive"] & ~hit
+                res.faults["killed_between_forcing_and_move"] += 1
+                res.probes["dead_rows_at_the_move"] += 1
+
     d = world.new_dir()
     try:
-        run = driver.run_scenario(sc, d, monitors=[] if diffusion else [monitor], rng_seed=truth.dt_s(sc))
+        run = driver.run_scenario(sc, d, monitors=([] if diffusion else [monitor]) + ([killer] if early else []),
+                                  rng_seed=truth.dt_s(sc))
         account_run(res, run, sc)
         scheme = sc["tracker"].get("advection", "EF")
         res.history_key = "|".join(map(str, (hash(str(sc["grid"].get("mask"))) % 99991, scheme, diffusion,
@@ -104,7 +127,7 @@ def check_run(res: Result, sc, run, d, stem: str, store: dict, ref, t_zero, diff
     # ---- safety invariants on every snapshot after the move and after the IBM
     dead_since: dict[int, int] = {}
     for s in rec.snaps:
-        if s["label"] not in ("tracker.post", "ibm.post", "output.pre", "forcing.post"):
+        if s["label"] not in ("tracker.pre", "tracker.post", "ibm.pre", "ibm.post", "output.pre", "forcing.post"):
             continue
         X, Y = s["vars"]["X"].astype(float), s["vars"]["Y"].astype(float)
         alive = s["vars"]["alive"].astype(bool)
